@@ -212,6 +212,17 @@ func runC01(t *testing.T, s C01Scenario) (res Result) {
 			}
 		}
 
+		// ... and the verdict is about the pair, not about the untrusted header alone: the same untrusted header is
+		// first verified from a twin of the trusted header whose type-level Verify accepts it
+		if tr != nil && un != nil {
+			twin := *tr
+			twin.VerifyFn = func(*vh.Header) error { return nil }
+			func() {
+				defer func() { _ = recover() }()
+				_ = header.Verify(&twin, un)
+			}()
+		}
+
 		var err error
 		func() {
 			defer func() {
